@@ -243,7 +243,14 @@ func runCase(root string, n int, sc *seqCase) gal.Case {
 	for k := range nameSet {
 		names = append(names, k)
 	}
-	sort.Strings(names)
+	// package order of the generators: ascending names, top-level dot files (when a package ships them late) after everything else
+	sort.Slice(names, func(i, j int) bool {
+		di, dj := strings.HasPrefix(names[i], "."), strings.HasPrefix(names[j], ".")
+		if di != dj {
+			return dj
+		}
+		return names[i] < names[j]
+	})
 
 	var steps []string
 	var b64rows []string
@@ -480,6 +487,22 @@ func (g *gen) variants(tag string) []variant {
 		p.Files = append([]synthrepo.File{{Name: ".hidden", Mode: 0o644, Content: []byte("h")}}, p.Files...)
 	})
 	add("indexed package starts with a hidden top-level file", Hd, "", whole("as indexed", Hd))
+	// a top-level dot file AFTER other entries is an ordinary packaged file (only the leading run of such names is skipped by the
+	// installer): installed, and its body is held to its recorded checksum like any other (seeded change C05-4)
+	Hl := mk("hidden-later", "L", func(p *synthrepo.Pkg) {
+		p.Files = append(p.Files, synthrepo.File{Name: ".profile", Mode: 0o644, Content: []byte("export L=1\n")})
+	})
+	add("indexed package ends with a top-level dot file", Hl, "", whole("as indexed", Hl))
+	HlBad := mk("hidden-later-altered", "L", func(p *synthrepo.Pkg) {
+		p.Files = append(p.Files, synthrepo.File{Name: ".profile", Mode: 0o644, Content: []byte("export L=2\n"), RawChecksum: hex.EncodeToString(sha1sum([]byte("export L=1\n")))})
+	})
+	add("late top-level dot file altered under its recorded checksum, data swapped in", Hl, "", &apkfile{Label: "genuine control + data whose late dot file is altered", ctlOf: Hl, datOf: HlBad})
+	add("indexed package: late top-level dot file does not match its recorded checksum", HlBad, "", whole("as indexed", HlBad))
+	HlNd := mk("hidden-later-altered-no-datahash", "L", func(p *synthrepo.Pkg) {
+		p.NoDatahash = true
+		p.Files = append(p.Files, synthrepo.File{Name: ".profile", Mode: 0o644, Content: []byte("export L=3\n"), RawChecksum: hex.EncodeToString(sha1sum([]byte("export L=1\n")))})
+	})
+	add("indexed package without datahash: late dot file does not match its recorded checksum", HlNd, "", whole("as indexed", HlNd))
 	// handle checksum shapes
 	add("handle checksum without the Q1 prefix", G, strings.TrimPrefix(G.Checksum(), "Q1"), whole("genuine", G))
 	add("handle checksum without Q1, different package served", G, strings.TrimPrefix(G.Checksum(), "Q1"), whole("another package", X))
